@@ -18,6 +18,11 @@ case "$GROUP" in
     MOUNT="$VERIF/harness/nsqlookupd=nsqlookupd,$VERIF/harness/cmd/lookupx=internal/verif/cmd/lookupx"
     KEEP=""
     ;;
+  adminx)
+    PKGS="./internal/stringy"
+    MOUNT="$VERIF/harness/nsqadmin=nsqadmin,$VERIF/harness/cmd/adminx=internal/verif/cmd/adminx"
+    KEEP=""
+    ;;
   *) echo "unknown group $GROUP"; exit 2;;
 esac
 "$VERIF/bin/vinstr" -repo "$REPO" -out "$OUT/ov" -rt "$VERIF/rt" -mount "$MOUNT" -keep "$KEEP" $PKGS >/dev/null
